@@ -20,3 +20,40 @@ func init() {
 		}
 	}
 }
+
+// majorR1Only: the Major field of the MHDR has one defined value (00, LoRaWAN R1); 01..11 are reserved. The
+// library carries any of the four through its codecs, and the workloads use that (the MIC covers those
+// bits); a library that refuses frames of a reserved major version breaks none of the properties - they
+// speak of spec-valid frames. Probed once per process: if such a frame is refused by the frame encoder or
+// decoder, the generators keep to major version 0.
+var majorR1Only = func() bool {
+	p := uint8(1)
+	phy := lorawan.PHYPayload{MHDR: lorawan.MHDR{MType: lorawan.UnconfirmedDataUp, Major: lorawan.Major(1)},
+		MACPayload: &lorawan.MACPayload{FHDR: lorawan.FHDR{DevAddr: lorawan.DevAddr{1, 2, 3, 4}}, FPort: &p, FRMPayload: []lorawan.Payload{&lorawan.DataPayload{Bytes: []byte{1}}}}}
+	refused := false
+	func() {
+		defer func() {
+			if recover() != nil {
+				refused = false // a panic is for the monitors to find, not for the probe to hide
+			}
+		}()
+		b, err := phy.MarshalBinary()
+		if err != nil {
+			refused = true
+			return
+		}
+		var back lorawan.PHYPayload
+		if back.UnmarshalBinary(b) != nil {
+			refused = true
+		}
+	}()
+	return refused
+}()
+
+// mj maps a generated major version to one the library under test carries.
+func mj(v byte) byte {
+	if majorR1Only {
+		return 0
+	}
+	return v
+}
